@@ -12,6 +12,7 @@ import Driver.C09
 import Driver.C17
 import Driver.C20
 import Driver.C16
+import Driver.C18
 /-
   Line-protocol driver: one operation per input line, one canonical output line per operation.
   Imports `Model/` only (no Mathlib, no proofs) so that it links as a `lean_exe`.
@@ -34,7 +35,8 @@ def handlers : List Handler := [
   Driver.C09.handle,
   Driver.C17.handle,
   Driver.C20.handle,
-  Driver.C16.handle
+  Driver.C16.handle,
+  Driver.C18.handle
 ]
 
 def step (st : DState) (line : String) : DState × String :=
